@@ -220,10 +220,14 @@ pub(crate) struct DefaultModeArgs {
     pub(crate) input_fs_dir: Option<PathBuf>,
 
     /// Txn file extension
-    #[arg(
-        long = "input.fs.ext",
+    #[arg(long = "input.fs.ext",
         value_name = "txn_file-suffix",
-        requires("input_fs_dir")
+        requires("input_fs_dir"),
+        conflicts_with_all([
+            "input_git_repo",
+            "input_git_ref",
+            "input_git_commit",
+            "input_git_dir"])
     )]
     pub(crate) input_fs_ext: Option<String>,
 
